@@ -35,6 +35,121 @@ type Spec struct {
 	Pattern int     `json:"pattern,omitempty"` // count: 0 first kind only, 1 kinds cycle entry by entry
 	Lens    [][]int `json:"lens,omitempty"`    // bytes: per stream, line-length class of each entry
 	SameTs  bool    `json:"same_ts,omitempty"` // all entries of a stream share one timestamp (and so may be identical)
+	Seq     [][]int `json:"seq,omitempty"`     // fields: per record, the value index of every field dimension (last: line variant)
+}
+
+// ---------------------------------------------------------------------------------------------------------
+// "fields" space: every request field a decoder turns into a label (list made by reading each Decode, see NOTES.md)
+// is a dimension with the values {absent, A, B}; a body is a SEQUENCE of 2-3 records (entries of a protocol whose
+// entries are self-contained — Datadog logs objects, Influx lines, OTLP log records — or one-entry streams/series
+// otherwise), so that state carried from one record to the next (un-reset fields, shared maps) shows as a row
+// attributed to another stream.
+
+type dim struct {
+	Name string
+	Vals [][]ir.Label // labels the field contributes; nil = the field is absent
+}
+
+func d3(name, a, b string) dim { return dim{name, [][]ir.Label{nil, L(name, a), L(name, b)}} }
+
+var fieldBase = map[string][]ir.Label{"datadog_logs": L("type", "datadog")}
+
+var fieldDims = map[string][]dim{
+	"loki_json":    {d3("a", "x", "y"), d3("b", "x", "y"), d3("__ttl_days__", "7", "x")},
+	"loki_proto":   {d3("a", "x", "y"), d3("b", "x", "y"), d3("__ttl_days__", "7", "x")},
+	"remote_write": {d3("__name__", "m", "n"), d3("a", "x", "y"), d3("b", "x", "y")},
+	"influx": {{"measurement", [][]ir.Label{L("measurement", "m"), L("measurement", "n")}}, d3("host", "a", "b"), d3("dc", "x", "y"),
+		d3("__name__", "usage", "idle")}, // __name__ absent: the line carries the string field `message`, else one numeric field
+	"datadog_logs": {d3("ddsource", "src", "src2"), d3("service", "s", "s2"), d3("hostname", "h", "h2"), d3("source_type", "st", "st2"),
+		{"ddtags", [][]ir.Label{nil, L("env", "prod"), L("env", "dev", "ver", "v1.2")}}},
+	"datadog_series": {{"metric", [][]ir.Label{L("__name__", "m"), L("__name__", "n")}},
+		{"resources[0]", [][]ir.Label{nil, L("resource1_type", "host", "resource1_name", "h1"), L("resource1_type", "host", "resource1_name", "h2")}},
+		{"resources[1]", [][]ir.Label{nil, L("resource2_name", "z")}}},
+	"otlp_logs": {d3("level", "info", "warn"), d3("r", "x", "y"), d3("scp_s", "x", "y"), d3("res_q", "x", "y")},
+}
+
+var fieldLines = []string{"abc", ""}
+
+func buildFields(s Spec, p *ir.Proto) ([]ir.Stream, error) {
+	dims := fieldDims[s.Proto]
+	st := step(p, s.Opt)
+	var streams []ir.Stream
+	for i, rec := range s.Seq {
+		if len(rec) != len(dims)+1 {
+			return nil, fmt.Errorf("record %d has %d indexes, want %d", i, len(rec), len(dims)+1)
+		}
+		labels := append([]ir.Label{}, fieldBase[s.Proto]...)
+		for di, d := range dims {
+			if rec[di] < 0 || rec[di] >= len(d.Vals) {
+				return nil, fmt.Errorf("dimension %s has no value %d", d.Name, rec[di])
+			}
+			labels = append(labels, d.Vals[rec[di]]...)
+		}
+		ts := T0 + int64(i+1)*st
+		metric := !strings.Contains(p.Kinds, "l") || (p == ir.Influx && influxMetricStream(labels))
+		e := ir.Entry{TsNs: ts, Line: fieldLines[rec[len(dims)]%len(fieldLines)], Type: ir.TypeLog}
+		if metric {
+			e = ir.Entry{TsNs: ts, Value: 1.5 + float64(i), Type: ir.TypeMetric}
+		}
+		streams = append(streams, ir.Stream{Labels: labels, Entries: []ir.Entry{e}})
+	}
+	return streams, nil
+}
+
+// fieldVariants: every assignment of a value index to every dimension (+ line variant); reduced = {first two values}.
+func fieldVariants(proto string, reduced bool) [][]int {
+	dims := fieldDims[proto]
+	sizes := make([]int, len(dims)+1)
+	for i, d := range dims {
+		sizes[i] = len(d.Vals)
+		if reduced && sizes[i] > 2 {
+			sizes[i] = 2
+		}
+	}
+	sizes[len(dims)] = len(fieldLines)
+	if !strings.Contains(ir.ProtoByName(proto).Kinds, "l") {
+		sizes[len(dims)] = 1
+	}
+	var out [][]int
+	cur := make([]int, len(sizes))
+	for {
+		out = append(out, append([]int{}, cur...))
+		k := 0
+		for k < len(cur) {
+			cur[k]++
+			if cur[k] < sizes[k] {
+				break
+			}
+			cur[k] = 0
+			k++
+		}
+		if k == len(cur) {
+			break
+		}
+	}
+	return out
+}
+
+func fieldRenderings(p *ir.Proto) []ir.Opt {
+	switch p {
+	case ir.OTLPLogs:
+		var out []ir.Opt
+		for _, pack := range []bool{true, false} {
+			for _, oe := range []bool{false, true} {
+				for _, ob := range []bool{false, true} {
+					out = append(out, ir.Opt{ByName: true, Pack: pack, OmitEmpty: oe, OmitBody: ob})
+				}
+			}
+		}
+		return out
+	case ir.DatadogLogs:
+		return []ir.Opt{{}, {OmitBody: true}, {KeyRot: 3, OmitBody: true, Unknown: true}}
+	case ir.RemoteWrite:
+		return []ir.Opt{{}, {Reverse: true}}
+	case ir.Influx:
+		return []ir.Opt{{Precision: time.Nanosecond}, {Precision: time.Second, MergeFields: true}}
+	}
+	return renderings(p, 3, false)
 }
 
 func L(kv ...string) []ir.Label {
@@ -149,6 +264,10 @@ func Build(s Spec) (*ir.Proto, []ir.Stream, error) {
 	p := ir.ProtoByName(s.Proto)
 	if p == nil {
 		return nil, nil, fmt.Errorf("unknown protocol %q", s.Proto)
+	}
+	if s.Space == "fields" {
+		streams, err := buildFields(s, p)
+		return p, streams, err
 	}
 	ls := labelSets[s.Proto]
 	st := step(p, s.Opt)
@@ -558,6 +677,50 @@ func enumerate(thorough bool, emit func(Spec)) map[string]int64 {
 	for _, p := range ir.Protocols {
 		ls := labelSets[p.Name]
 		nv := len(variants[p.Name])
+		// ---- fields space: sequences of 2-3 records over every per-record field variant -------------------
+		{
+			red := fieldVariants(p.Name, true)
+			full := fieldVariants(p.Name, false)
+			pairsOver := red
+			if thorough && len(full) <= 200 {
+				pairsOver = full
+			}
+			for _, o := range fieldRenderings(p) {
+				for _, r1 := range pairsOver {
+					for _, r2 := range pairsOver {
+						send("fields_pairs", Spec{Space: "fields", Proto: p.Name, Opt: o, Seq: [][]int{r1, r2}})
+					}
+				}
+				// triples: one dimension at a time over all its values (the other fields absent / first value) ...
+				dims := fieldDims[p.Name]
+				for di := 0; di <= len(dims); di++ {
+					n := len(fieldLines)
+					if di < len(dims) {
+						n = len(dims[di].Vals)
+					}
+					for code := 0; code < n*n*n; code++ {
+						seq := make([][]int, 3)
+						c := code
+						for k := 0; k < 3; k++ {
+							seq[k] = make([]int, len(dims)+1)
+							seq[k][di] = c % n
+							c /= n
+						}
+						send("fields_triples_one_dimension", Spec{Space: "fields", Proto: p.Name, Opt: o, Seq: seq})
+					}
+				}
+				// ... and, thorough, every triple over the {absent, A} variants
+				if thorough && len(red) <= 32 {
+					for _, r1 := range red {
+						for _, r2 := range red {
+							for _, r3 := range red {
+								send("fields_triples", Spec{Space: "fields", Proto: p.Name, Opt: o, Seq: [][]int{r1, r2, r3}})
+							}
+						}
+					}
+				}
+			}
+		}
 		// ---- small space ------------------------------------------------------------------------------
 		// (A1) one stream: every label set x every entry list (0..2 entries, every variant) x every rendering
 		for li := range ls {
@@ -705,7 +868,7 @@ type finding struct {
 }
 
 func main() {
-	r := ev.Start("C03", "model_checking", 60*time.Second, 15*time.Minute)
+	r := ev.Start("C03", "model_checking", 75*time.Second, 15*time.Minute)
 	ir.InitWriterGlobals()
 	r.Rule = "every body rendered from a value-level description []Stream{labels,[]Entry{ts,line,value,type}}: per protocol (Loki JSON both layouts, " +
 		"Loki snappy-protobuf, remote-write, Influx line protocol, Datadog logs, Datadog series, OTLP logs) the full product, inside each listed sub-space, of " +
